@@ -52,7 +52,17 @@ def c01_ok (now drift : Int) (tvr : TV) (t u : Hdr) (r : ImplV) : Option String 
     else if soft == (u.height != t.height + 1 || reportedSoft tvr) then none else some "c01_soft_iff"
   | .notVE => some "c01_always_verifyerror"
 
+/-- the type's own error value is shared between calls: soft exactly for the non-adjacent failure, hard for the adjacent
+    ones before AND after it -/
+def evalC01Shared (outs : List String) : Verdict :=
+  match kv? outs "adjacent0", kv? outs "nonadjacent", kv? outs "adjacent1" with
+  | some a0, some f, some a1 =>
+    if a0 == "hard" && f == "soft" && a1 == "hard" then .ok "sharedsentinel"
+    else .prop "c01_soft_iff" s!"shared type-level error: adjacent={a0}, then non-adjacent={f}, then adjacent={a1} (must be hard, soft, hard)"
+  | _, _, _ => .bad "C01 sharedsentinel"
+
 def evalC01 (ins outs : List String) : Verdict :=
+  if kv? ins "kind" == some "sharedsentinel" then evalC01Shared outs else
   match kvNat? ins "tz", kvNat? ins "uz", kvNat? ins "tc", kvNat? ins "uc", kvNat? ins "th", kvNat? ins "uh",
         kvInt? ins "tt", kvInt? ins "ut", kvInt? ins "now", kvInt? ins "drift", (kv? ins "tv").bind TV.ofString?,
         outs.head?.bind ImplV.parse? with
